@@ -14,7 +14,7 @@ def decks() -> list[str]:
 
 
 KEY = ("prs-slide-masters.pptx", "sld-notes.pptx", "cht-plot-props.pptx", "shp-groupshape.pptx", "tbl-cell.pptx", "ph-inherit-props.pptx",
-       "act-props.pptm", "shp-picture.pptx", "no-core-props.pptx")
+       "act-props.pptm", "shp-picture.pptx", "no-core-props.pptx", "ph-unpopulated-placeholders.pptx", "ph-populated-placeholders.pptx")
 
 
 def key_decks() -> list[str]:
